@@ -131,10 +131,18 @@ def sort(iterable):
     >>> sort([1,3,2,None]) == [None, 1, 2, 3]
 
     """
+    iterable = list(iterable)
     try:
+        if any(_has_nan(i) for i in iterable): # native order is not total in the presence of nan
+            raise TypeError('nan')
         return sorted(iterable)
     except TypeError:
         return sorted(iterable, key = Cmp)
+
+def _has_nan(x):
+    if isinstance(x, (tuple, list)):
+        return any(_has_nan(i) for i in x)
+    return isinstance(x, float) and x!=x
 
 
 # def _type(x):
